@@ -201,6 +201,14 @@ class SqlalchemyRender:
                     raise NotImplementedError(f'Required list argument for: {op}')
 
             method = methods.get(op)
+            if (
+                op in ('is', 'is not')
+                and isinstance(t.args[1], ast.Constant) and isinstance(t.args[1].value, bool)
+                and self.dialect.name == 'sqlite'
+            ):
+                # without a native boolean the constant is rendered as 1 / 0, and "x IS 1" is a comparison with 1,
+                #  not the truth test "x IS TRUE" (they differ for x = 2)
+                arg1 = sa.literal_column('TRUE' if t.args[1].value else 'FALSE')
             if op == '||':
                 # "||" binds tighter than arithmetic in some engines and looser in others:
                 #  the grouping of the statement stays explicit
